@@ -52,6 +52,13 @@ peg::parser! {
 
 /// Fast PEG-based parser that extracts JSON directly from string
 pub fn parse_peg(input: &str) -> Result<Command, ParseError> {
+    // Payloads are flat objects; refuse absurd nesting before handing the text to the recursive
+    // brace matcher / JSON parser (tens of thousands of nested brackets overflow the stack).
+    if json_nesting_exceeds(input, MAX_JSON_NESTING) {
+        return Err(ParseError::InvalidJson(
+            "payload nested too deeply".to_string(),
+        ));
+    }
     let (event_type, context_id, json_str) = sneldb_store::store(input)
         .map_err(|e| ParseError::UnexpectedToken(format!("PEG parse error: {}", e)))?;
 
@@ -64,4 +71,36 @@ pub fn parse_peg(input: &str) -> Result<Command, ParseError> {
         context_id: context_id.to_string(),
         payload: json_value,
     })
+}
+
+const MAX_JSON_NESTING: usize = 64;
+
+fn json_nesting_exceeds(json: &str, max: usize) -> bool {
+    let mut depth = 0usize;
+    let mut in_string = false;
+    let mut escaped = false;
+    for c in json.chars() {
+        if in_string {
+            if escaped {
+                escaped = false;
+            } else if c == '\\' {
+                escaped = true;
+            } else if c == '"' {
+                in_string = false;
+            }
+            continue;
+        }
+        match c {
+            '"' => in_string = true,
+            '{' | '[' => {
+                depth += 1;
+                if depth > max {
+                    return true;
+                }
+            }
+            '}' | ']' => depth = depth.saturating_sub(1),
+            _ => {}
+        }
+    }
+    false
 }
